@@ -45,7 +45,7 @@ with flat_atom (a : atom) : bool :=
   | AConst _ => true
   | AVar x => flat_var x
   | ANeg a' => flat_atom a'
-  | AMethod (AVar r) f args => flat_var r && okmeth f && flat_elist args
+  | AMethod a' f args => flat_atom a' && okmeth f && flat_elist args     (* also chained: F.S.ToUpper().HasPrefix("A") *)
   | AFunc f args => negb (control_builtin f) && flat_elist args          (* the value built-ins: Max, Min, Abs, IsZero, IsNil *)
   | _ => false
   end
@@ -563,15 +563,14 @@ Proof.
     split; [apply defunc_value_frame; apply Bl; reflexivity|].
     intros p E. exfalso. exact (defunc_value_not_ref fx f vs p E).
   - (* AMethod *) intros a IHa f l IHl Hf Hv. simpl in Hf.
-    destruct a as [c|r|f0 l0|a0 f0 l0|a0 n0|a0 e0|a0]; try discriminate.
     apply andb_prop in Hf. destruct Hf as [Hf Hfl]. apply andb_prop in Hf. destruct Hf as [Hfr Hok].
-    assert (Hva: forall y, In y (vars_atom (AVar r)) -> flat_var y = true -> unchanged_var fx fx' y)
+    assert (Hva: forall y, In y (vars_atom a) -> flat_var y = true -> unchanged_var fx fx' y)
       by (intros; apply Hv; auto; cbn [vars_atom]; apply in_or_app; auto).
     assert (Hvl: forall y, In y (vars_elist l) -> flat_var y = true -> unchanged_var fx fx' y)
       by (intros; apply Hv; auto; cbn [vars_atom]; apply in_or_app; auto).
     destruct (IHa Hfr Hva) as [Aa Ba]. destruct (IHl Hfl Hvl) as [Al Bl].
     rewrite (fresh_atom_unfold meth fx'), (fresh_atom_unfold meth fx). rewrite Aa, Al.
-    destruct (Fresh.fresh_atom meth fx (AVar r)) as [recv| |] eqn:Er; try (split; [reflexivity|intros p E; discriminate]).
+    destruct (Fresh.fresh_atom meth fx a) as [recv| |] eqn:Er; try (split; [reflexivity|intros p E; discriminate]).
     destruct (Fresh.fresh_args meth fx l) as [vs| |] eqn:El; try (split; [reflexivity|intros p E; discriminate]).
     rewrite (views_scalars fx fx' vs (Bl vs eq_refl)).
     split.
@@ -619,11 +618,7 @@ Proof.
   intros c p H. destruct H; simpl; intros Hf; try discriminate; auto;
     try (apply andb_prop in Hf; destruct Hf; assumption).
   - (* the receiver of an admitted method call *)
-    destruct a as [c0|r|f0 l0|a0 f0 l0|a0 n0|a0 e0|a0]; try discriminate.
     apply andb_prop in Hf. destruct Hf as [Hf _]. apply andb_prop in Hf. destruct Hf as [Hf _]. exact Hf.
-  - (* its arguments *)
-    destruct a as [c0|r|f0 l0|a0 f0 l0|a0 n0|a0 e0|a0]; try discriminate.
-    apply andb_prop in Hf. destruct Hf as [_ Hf]. exact Hf.
   - (* the literal selector of a flat variable is a flat expression *)
     apply andb_prop in Hf. destruct Hf as [_ Hs].
     destruct e as [a| |]; try discriminate. destruct a as [c0| | | | | |]; try discriminate. reflexivity.
@@ -687,7 +682,6 @@ Proof.
   - intros f l IHl Hf y H. simpl in Hf. apply andb_prop in Hf. destruct Hf as [_ Hfl].
     cbn [vars_atom] in *. exact (IHl Hfl y H).
   - intros a IHa f l IHl Hf y H. simpl in Hf.
-    destruct a as [c0|r|f0 l0|a0 f0 l0|a0 n0|a0 e0|a0]; try discriminate.
     apply andb_prop in Hf. destruct Hf as [Hf Hfl]. apply andb_prop in Hf. destruct Hf as [Hfr _].
     cbn [vars_atom] in *. apply in_app_or in H. destruct H as [H|H].
     + apply incl_appl. apply (IHa Hfr y H).
